@@ -70,26 +70,33 @@ fn console_vxw_c14() {
     let base_headers = sv(&[("Host", "168.63.129.16"), ("x-ms-version", "2012-11-30")]);
     let plain = |body: &str| MockResp { status: 200, headers: sv(&[("content-type", "text/xml; charset=utf-8"), ("x-ms-request-id", "r-1")]), body: RespBody::Len(body.as_bytes().to_vec()) };
 
+    // where the kernel lets us create the audit map, the enumeration is repeated through the REAL handle_new_tcp_connection
+    // (real TcpConnectionContext::new, connection attributed by a real audit_map record whose original destination is the mock host)
+    let audit = h.install_audit_map();
+    let real_path = std::cell::Cell::new(false);
+
     // one request on a fresh connection, both directions checked
     let mut exchange = |n: &mut u64, what: &str, sent: Sent, resp: MockResp| {
         *n += 1;
         h.host.push_response(resp.clone());
         let head = sent.method == "HEAD";
         let wire = vx_request_bytes(&sent.method, &sent.target, &sent.headers, &sent.body);
-        let (r, _b, reqs) = h.one(&h.ps, &attr, wire, head);
+        let (r, _b, reqs) = if real_path.get() { h.one_real(&h.ps, Some((audit.as_ref().unwrap(), true)), wire, head) } else { h.one(&h.ps, &attr, wire, head) };
         let mut problems = Vec::new();
         if reqs.len() > 1 { problems.push(format!("{} requests at the host for one client request", reqs.len())); }
         check_request("request", &sent, reqs.first(), &mut problems);
         check_response("response", &resp, head, &r, &mut problems);
         if !problems.is_empty() {
-            vx_fail(serde_json::json!({"property": "C14", "input": {"what": what, "request": format!("{} {}", sent.method, sent.target), "client_headers": sent.headers.iter().map(|(a, b)| format!("{}: {}", a, b)).collect::<Vec<_>>(),
+            vx_fail(serde_json::json!({"property": "C14", "input": {"what": what, "path": if real_path.get() { "real handle_new_tcp_connection, attributed through the kernel audit map" } else { "constructed connection context (WireServer, elevated caller)" }, "request": format!("{} {}", sent.method, sent.target), "client_headers": sent.headers.iter().map(|(a, b)| format!("{}: {}", a, b)).collect::<Vec<_>>(),
                 "request_body": format!("{:?} {} bytes", match &sent.body { ReqBody::None => "none".to_string(), ReqBody::Len(_) => "content-length".to_string(), ReqBody::Chunked(_, s) => format!("chunked {:?}", s) }, sent.body.bytes().len()),
                 "host_response": format!("{} {:?} body {}", resp.status, resp.headers, match &resp.body { RespBody::None => "none".to_string(), RespBody::Len(b) => format!("content-length {}", b.len()), RespBody::Chunked(c, g) => format!("chunked {:?} gap {}ms", c.iter().map(|x| x.len()).collect::<Vec<_>>(), g), RespBody::UntilClose(b) => format!("until close {}", b.len()) })},
                 "got": {"problems": problems}, "want": "method, path+query, body, other client headers unchanged at the host; status, headers, body unchanged at the client plus one marker header"}));
         }
     };
 
-    for (kname, key) in [("key set (signed)", true), ("no key", false)] {
+    for (kname, key, real) in [("key set (signed)", true, false), ("no key", false, false), ("key set (signed), real listener path", true, true)] {
+        if real && audit.is_none() { continue; }
+        real_path.set(real);
         h.set_key(if key { Some(vx_key()) } else { None });
 
         // ---- A: methods x request targets
@@ -185,17 +192,29 @@ fn console_vxw_c14() {
         }
     };
     // sequential
-    {
-        let mut conn = h.connect(&attr);
+    for real in [false, true] {
+        if real && audit.is_none() { continue; }
         let mut sent = Vec::new();
         let mut got = Vec::new();
-        for i in 0..40 {
-            let s = make(0, i);
-            conn.client.send(vx_request_bytes(&s.method, &s.target, &s.headers, &s.body));
-            got.push(conn.client.recv(false));
-            sent.push(s);
-        }
-        let (_b, reqs) = h.finish(conn);
+        let reqs = if real {
+            let mut client = h.connect_real(&h.ps, Some((audit.as_ref().unwrap(), false)));
+            for i in 0..40 {
+                let s = make(0, i);
+                client.send(vx_request_bytes(&s.method, &s.target, &s.headers, &s.body));
+                got.push(client.recv(false));
+                sent.push(s);
+            }
+            h.finish_real(client).1
+        } else {
+            let mut conn = h.connect(&attr);
+            for i in 0..40 {
+                let s = make(0, i);
+                conn.client.send(vx_request_bytes(&s.method, &s.target, &s.headers, &s.body));
+                got.push(conn.client.recv(false));
+                sent.push(s);
+            }
+            h.finish(conn).1
+        };
         let mut problems = Vec::new();
         if reqs.len() != sent.len() { problems.push(format!("{} requests at the host, {} sent", reqs.len(), sent.len())); }
         for (i, s) in sent.iter().enumerate() {
@@ -204,7 +223,7 @@ fn console_vxw_c14() {
         }
         if !problems.is_empty() {
             problems.truncate(6);
-            vx_fail(serde_json::json!({"property": "C14", "input": {"what": "E 40 requests one after the other on one keep-alive connection (GET / POST content-length / PUT chunked, growing bodies)"}, "got": {"problems": problems}, "want": "every request unchanged at the host in order, every response at the request that caused it"}));
+            vx_fail(serde_json::json!({"property": "C14", "input": {"what": "E 40 requests one after the other on one keep-alive connection (GET / POST content-length / PUT chunked, growing bodies)", "real_listener_path": real}, "got": {"problems": problems}, "want": "every request unchanged at the host in order, every response at the request that caused it"}));
         }
     }
     // pipelined: all requests are written before the first response is read
